@@ -55,7 +55,7 @@ pub struct UniCase {
 
 fn tgen(tier: Tier) -> TaskGen {
     TaskGen {
-        arr: ArrGen { tmax: tier.pick(50, 100), never: false, plateau_end: true, plain_curves: true, derived: false, acp: false, loose: false, depth: 1 },
+        arr: ArrGen { tmax: tier.pick(50, 100), never: false, plateau_end: true, plain_curves: true, derived: false, acp: false, loose: false, poisson: false, depth: 1 },
         cmax: 9,
         nmax: 4,
         dfac: 3,
@@ -181,7 +181,44 @@ fn check_uni(c: &UniCase) -> CheckResult {
         }
     };
     judge(&format!("{} under {:?}", c.analysis.name(), c.harden), &base, &hard, matches!(c.harden, Harden::LimitUp { .. }))?;
-    out.inner = 2;
+    // period / jitter hardenings move the examined offsets around: follow a whole chain of
+    // increasingly hard systems and demand monotonicity along it
+    if let Harden::JitterUp { task, k } | Harden::PeriodDown { task, k } = &c.harden {
+        let mut prev = hard.clone();
+        for step in 1..=8u64 {
+            let mut c2 = c.clone();
+            c2.harden = match &c.harden {
+                Harden::JitterUp { .. } => Harden::JitterUp { task: *task, k: k + step },
+                _ => Harden::PeriodDown { task: *task, k: k + step },
+            };
+            let (ts2, b2, l2) = match harden_uni(&c2) {
+                Some(x) => x,
+                None => break,
+            };
+            let next = match run_uni(&ts2, c.analysis, c.tua, l2, b2) {
+                Ok(r) => r,
+                Err(_) => break,
+            };
+            judge(&format!("{} under {:?} (after {:?})", c.analysis.name(), c2.harden, c.harden), &prev, &next, false)?;
+            if next == prev && step > 3 {
+                // nothing moves any more (e.g. the period reached 1)
+            }
+            prev = next;
+            out.inner += 1;
+        }
+    }
+    if let (Harden::LimitUp { k }, Res::Ok(_)) = (&c.harden, &base) {
+        // a ladder of larger limits: every one of them must reproduce the Ok exactly
+        for extra in [1u64, 2, 3, 5, 8, 13, 21, 34, 55, 89, 144, k + 233, 3 * k + 1000] {
+            let again = match run_uni(&c.tasks, c.analysis, c.tua, c.limit + extra, c.blocking) {
+                Ok(r) => r,
+                Err(_) => break,
+            };
+            judge(&format!("{} with limit {} + {}", c.analysis.name(), c.limit, extra), &base, &again, true)?;
+            out.inner += 1;
+        }
+    }
+    out.inner += 2;
     out.nontrivial = base.ok().is_some() && hard.ok().is_some() && hard != base;
     out.label_if(base.is_err(), "base-err");
     out.label_if(base.ok().is_some() && hard.is_err(), "ok-to-err");
@@ -263,7 +300,7 @@ fn ros_strategy(tier: Tier) -> BoxedStrategy<RosCase> {
             2 => Just(RosHarden::BudgetDown),
             1 => Just(RosHarden::DeadlineUp),
             2 => (1u64..8).prop_flat_map(|p| (1..=p, Just(p))).prop_map(|(q, p)| RosHarden::Reserve { q, p }),
-            2 => (1u64..500).prop_map(|k| RosHarden::LimitUp { k }),
+            4 => (1u64..500).prop_map(|k| RosHarden::LimitUp { k }),
         ],
     )
         .prop_map(|(base, limit, harden)| RosCase { base, limit, harden })
@@ -393,7 +430,21 @@ fn check_ros(c: &RosCase) -> CheckResult {
         }
     };
     judge(&format!("{} under {:?}", name, c.harden), &base, &hard, matches!(c.harden, RosHarden::LimitUp { .. }))?;
-    out.inner = 2;
+    if let (RosHarden::LimitUp { k }, Res::Ok(_)) = (&c.harden, &base) {
+        for extra in [1u64, 2, 3, 5, 8, 13, 21, 34, 55, 89, 144, k + 233, 3 * k + 1000] {
+            let again = match &c.base {
+                RosBase::E19(b) => guard(|| c07::run19(b, &b.supply, c.limit + extra)),
+                RosBase::R21(b) => guard(|| c07::run21(b, &b.supply, c.limit + extra)),
+            };
+            let again = match again {
+                Ok(r) => Res::from(r),
+                Err(_) => break,
+            };
+            judge(&format!("{} with limit {} + {}", name, c.limit, extra), &base, &again, true)?;
+            out.inner += 1;
+        }
+    }
+    out.inner += 2;
     out.nontrivial = base.ok().is_some() && hard.ok().is_some() && hard != base;
     out.label_if(base.is_err(), "base-err");
     out.label(name);
